@@ -177,6 +177,54 @@ func calleeCode(r *Rng, w *world, mode int, wild bool) []byte {
 	return g.a.bytes()
 }
 
+// a statement that reads state but never writes it
+func (g *pgen) readStmt() {
+	r, a := g.r, g.a
+	switch r.Intn(7) {
+	case 0:
+		a.push(g.key())
+		a.op(0x54, 0x50) // SLOAD
+	case 1:
+		a.push(g.key())
+		a.op(0x5c, 0x50) // TLOAD
+	case 2:
+		a.push(g.addr())
+		a.op(0x31, 0x50) // BALANCE
+	case 3:
+		a.push(g.addr())
+		a.op(0x3b, 0x50) // EXTCODESIZE
+	case 4:
+		a.pushU(uint64(r.Intn(200)))
+		a.op(0x51, 0x50) // MLOAD
+	case 5: // zero-value CALL / STATICCALL to another contract (static by inheritance)
+		a.pushU(0)
+		a.pushU(0)
+		a.pushU(0)
+		a.pushU(0)
+		if r.Bool() {
+			a.pushU(0)
+			a.push(g.addr())
+			a.op(0x5a, 0xf1, 0x50)
+		} else {
+			a.push(g.addr())
+			a.op(0x5a, 0xfa, 0x50)
+		}
+	default:
+		a.push(g.word())
+		a.push(g.word())
+		a.op(0x01, 0x50)
+	}
+}
+
+func staticProbe(r *Rng, w *world) []byte {
+	g := &pgen{r: r, a: newAsm(), w: w}
+	for i := r.Intn(4); i > 0; i-- {
+		g.readStmt()
+	}
+	g.ending(endStaticWrite)
+	return g.a.bytes()
+}
+
 var wrapKinds = []byte{0xf1, 0xf2, 0xf4, 0xfa, 0xf0, 0xf5}
 
 // the wrapper: invoke the callee (address [target], or [init] as init code) by [kind]
@@ -249,6 +297,11 @@ func genCase(r *Rng, wild bool) (tcase, genInfo) {
 		mode = endMemBomb // a creation gets 63/64 of everything: no endless loops there
 	}
 	calleeProg := calleeCode(r, w, mode, wild)
+	if kind == 0xfa && mode == endStaticWrite && r.Chance(3, 4) {
+		// a static probe: nothing but reads before the one write attempt, so that this very
+		// opcode's write protection decides whether the static frame succeeds
+		calleeProg = staticProbe(r, w)
+	}
 
 	// the third contract: a random program (may call back into caller / callee)
 	g3 := &pgen{r: r, a: newAsm(), w: w, wild: wild}
@@ -333,7 +386,7 @@ func genCase(r *Rng, wild bool) (tcase, genInfo) {
 
 func gen(r *Rng, tier string, emit func(Sx)) {
 	r = NewRng(r.U64())
-	n := 400
+	n := 300
 	if tier == "thorough" {
 		n = 8000
 	}
